@@ -480,6 +480,66 @@ fn replay1(case: &Value) -> Result<Option<(String, String)>, String> {
             };
             Ok(check_mo_pair(&f(&case["a"]), &f(&case["b"])))
         }
-        _ => Err(format!("C09: replay kind '{}' is re-checked by the full run only", kind)),
+        "mconstruct" => {
+            let v: Vec<f64> = case["v"].as_array().ok_or("no v")?.iter().map(|x| bits(x)).collect::<Result<_, _>>()?;
+            let exp = v.iter().all(|x| legal(*x));
+            let r1 = MultiObjective::try_from(v.clone());
+            let r2 = MultiObjective::try_from(&v[..]);
+            let mut out = None;
+            if r1.is_ok() != exp || r2.is_ok() != exp {
+                out = Some((format!("C09 multi construct len={} expected_ok={}", v.len(), exp), format!("try_from({:?}): vec form ok={}, slice form ok={}", v, r1.is_ok(), r2.is_ok())));
+            } else if let Ok(m) = &r1 {
+                if m.is_finite() != v.iter().all(|x| x.is_finite()) {
+                    out = Some((format!("C09 multi is_finite len={}", v.len()), format!("{:?}", v)));
+                }
+            }
+            Ok(out)
+        }
+        "triple" => {
+            let g: Vec<f64> = grid().into_iter().filter(|v| legal(*v)).collect();
+            let ix = |k: &str| case[k].as_u64().unwrap_or(0) as usize;
+            let (a, b, c) = (so(g[ix("i")]).unwrap(), so(g[ix("j")]).unwrap(), so(g[ix("k")]).unwrap());
+            let r = catch(|| {
+                let trans = !(a <= b && b <= c) || a <= c;
+                let mut v = vec![a, b, c];
+                v.sort();
+                let sorted = v[0] <= v[1] && v[1] <= v[2];
+                let fm = g[ix("i")].min(g[ix("j")]).min(g[ix("k")]);
+                let fx = g[ix("i")].max(g[ix("j")]).max(g[ix("k")]);
+                let mn = *[a, b, c].iter().min().unwrap();
+                let mx = *[a, b, c].iter().max().unwrap();
+                let mk = *[a, b, c].iter().min_by_key(|x| **x).unwrap();
+                (trans, sorted, mn.value() == fm && mk.value() == fm && mx.value() == fx && v[0].value() == fm && v[2].value() == fx)
+            });
+            Ok(match r {
+                Err(e) => Some(("C09 order triple panic".to_string(), e)),
+                Ok((t, s2, m)) => {
+                    if !t {
+                        Some(("C09 order triple transitivity".to_string(), String::new()))
+                    } else if !s2 {
+                        Some(("C09 order triple sort".to_string(), String::new()))
+                    } else if !m {
+                        Some(("C09 order triple minmax".to_string(), String::new()))
+                    } else {
+                        None
+                    }
+                }
+            })
+        }
+        "mtriple" => {
+            let mg = mo_grid();
+            let ix = |k: &str| case[k].as_u64().unwrap_or(0) as usize;
+            let m = |i: usize| MultiObjective::try_from(mg[i].clone()).unwrap();
+            let (ab, bc, ac) = (m(ix("i")).partial_cmp(&m(ix("j"))), m(ix("j")).partial_cmp(&m(ix("k"))), m(ix("i")).partial_cmp(&m(ix("k"))));
+            use Ordering::*;
+            let ok = match (ab, bc) {
+                (Some(Less), Some(Less)) | (Some(Less), Some(Equal)) | (Some(Equal), Some(Less)) => ac == Some(Less),
+                (Some(Greater), Some(Greater)) | (Some(Greater), Some(Equal)) | (Some(Equal), Some(Greater)) => ac == Some(Greater),
+                (Some(Equal), Some(Equal)) => ac == Some(Equal),
+                _ => true,
+            };
+            Ok(if ok { None } else { Some(("C09 multi triple transitivity".to_string(), String::new())) })
+        }
+        _ => Err(format!("C09: unknown replay kind '{}'", kind)),
     }
 }
